@@ -96,6 +96,9 @@ def _forecast_spec(route, mu):
     if route == 'data-copy-edited':
         # history: the caller normalises the array that forecast.data RETURNED, in place, before the test
         return [mu * w for w in WEIGHTS], ['data-copy-edited']
+    if route == 'int-rates-scaled':
+        # the rates are stored as an INTEGER array (counts per bin), the total mu is reached through a fractional scale factor
+        return [1, 2, 3, 4, 5, 6], ['int-rates', mu / 21.0]
     if route == 'read-then-scaled':
         # history on one forecast object: its total is read (and an N-test run) BEFORE it is scaled to mu
         k = int(mu) if (float(mu).is_integer() and mu >= 1) else mu
@@ -138,9 +141,12 @@ def cases(tier, seed):
                 out.append(c)
     # simplest first: counting law, then Poisson, then NBD
     add(_catalog_cases([0, 1, 2, 3], 5, 4, 5))
+    # synthetic catalogs and observations of ~1e5 events whose sizes differ by 1 (relative 1e-5) and by more
+    for ms in ([99999, 100000, 100001, 100001], [99990, 100000, 100400], [12345, 12346, 12346, 12347]):
+        add([dict(kind='catalog', msets=[ms], ns=sorted(set(ms + [ms[0] - 1, ms[-1] + 1])))])
     for ms in space.chunks(space.multisets([0, 1, 2, 3], 1, 3), 6):
         add([dict(kind='catalog_history', msets=[list(m) for m in ms], ns=[0, 1, 2], firsts=['number_test', 'iterate', 'get_event_counts'])])
-    add(_law_cases(MUS_Q, ['direct', 'scaled', 'read-then-scaled', 'subthreshold-obs', 'data-copy-edited'], []))
+    add(_law_cases(MUS_Q, ['direct', 'scaled', 'read-then-scaled', 'subthreshold-obs', 'data-copy-edited', 'int-rates-scaled'], []))
     add(_law_cases(MUS_Q, ['direct', 'scaled', 'subthreshold-obs'], FACTORS_Q, with_poisson=False))
     if tier == 'quick':
         # seed-selected additional complete block of the thorough space (all mu x all n for one extra variance law)
@@ -193,6 +199,10 @@ def observed_catalog(n, sub=False):
 
 
 def build_forecast(rates, scale):
+    if isinstance(scale, (list, tuple)) and scale[0] == 'int-rates':
+        from csep.core.forecasts import GriddedForecast
+        fc = GriddedForecast(data=numpy.array(rates, dtype=numpy.int64).reshape(len(ORIGINS), len(MAGS)), region=region(), magnitudes=numpy.array(MAGS), name='fc')
+        return fc.scale(scale[1])
     fc = fixtures.gridded_forecast(numpy.array(rates, dtype=float).reshape(len(ORIGINS), len(MAGS)), region(), MAGS)
     if isinstance(scale, (list, tuple)) and scale[0] == 'subthreshold-obs':
         return fc
@@ -220,6 +230,20 @@ def synthetic_forecast(sizes):
     cats = []
     eid = 0
     for i, s in enumerate(sizes):
+        if s > 1000:
+            # many events: the structured array is written directly (same fields as below)
+            from csep.core.catalogs import CSEPCatalog
+            data = numpy.zeros(s, dtype=CSEPCatalog.dtype)
+            j = numpy.arange(s)
+            data['id'] = (eid + 1 + j).astype('S12')
+            data['origin_time'] = T0 + 1000 * (eid + 1 + j)
+            data['latitude'] = 0.05
+            data['longitude'] = 0.05 + 0.1 * (j % 2)
+            data['depth'] = 10.0
+            data['magnitude'] = 5.5 + (j % 2)
+            eid += s
+            cats.append(CSEPCatalog(data=data, region=reg, catalog_id=i, name='fc'))
+            continue
         evs = []
         for j in range(s):
             eid += 1
